@@ -498,9 +498,10 @@ theorem go_no_row_of_nonprimary (first : Genum.Value) (vs : List Genum.Value) (h
 def exV : Genum.Value := { name := "A", value := 1, signed := false, deprecated := false, val := 1, tvals := [.int 7] }
 def exT : Genum.TraitDesc :=
   { name := "Num", ty := "int", fam := .sint 64, parsable := true, rows := [⟨exV, ⟨"int", .int 7⟩⟩] }
-def exG : GTraitDesc :=
-  { Name := "Num", «Type» := ⟨some .UntypedInt, 0, fun _ _ => false, fun _ _ => false⟩, TypeRef := "int", Parsable := true,
-    Traits := [{ OwningValue := C04Tie.abs exV, value := "7", variableName := "_Num", repeatsParseKey := false }] }
+def exTy : GType := ⟨false, some .UntypedInt, 0, fun _ _ => false, fun _ _ => false⟩
+def exI : GTraitInstance :=
+  { OwningValue := C04Tie.abs exV, value := "7", variableName := "_Num", keyType := exTy, keyValue := "7", repeatsParseKey := false }
+def exG : GTraitDesc := { Name := "Num", «Type» := exTy, TypeRef := "int", Parsable := true, Traits := [exI] }
 
 /-- the hypotheses of `go_processDuplicates_eq`, `go_validateParsable_eq`, `go_getParsable…_eq`, `go_instanceOf_eq`
 hold for a concrete enum -/
